@@ -32,6 +32,9 @@ type Rule struct {
 
 const (
 	ActFail     = "fail"     // answer with failure result code
+	// ActFailNoCode: failure result code, exception code Unknown (0): what a
+	// coordinator answers when handling the request threw an unexpected error
+	ActFailNoCode = "fail-nocode"
 	ActSilent   = "silent"   // never answer
 	ActLate     = "late"     // answer after the client's RPC timeout
 	ActDup      = "dup"      // answer twice
@@ -349,6 +352,14 @@ func (tc *TC) OnFrame(sess int, f *Frame) {
 		resp.Result = ResultFailed
 		resp.Message = msg
 		resp.ExCode = ex
+	}
+	if act == ActFailNoCode {
+		act = ActFail
+		fail = func(msg string, ex byte) {
+			resp.Result = ResultFailed
+			resp.Message = msg
+			resp.ExCode = 0
+		}
 	}
 	switch m.Code {
 	case TRegTM:
